@@ -21,7 +21,8 @@ def parseArch : String → Option Arch
 def parseJ : String → Option JKind
   | "jmp" => some .jmp | "jz" => some .jz | "call" => some .call | "jecxz" => some .jecxz | "loop" => some .loop | _ => none
 def parseM : String → Option MKind
-  | "lea" => some .lea | "mov" => some .mov | "addi8" => some .addi8 | "movi32" => some .movi32 | "cmpi16" => some .cmpi16 | _ => none
+  | "lea" => some .lea | "mov" => some .mov | "addi8" => some .addi8 | "movi32" => some .movi32 | "cmpi16" => some .cmpi16
+  | "ldeax" => some .ldeax | "steax" => some .steax | "ldrax" => some .ldrax | _ => none
 def parseA : String → Option AKind
   | "b" => some .b | "bl" => some .bl | "bcond" => some .bcond | "cbz" => some .cbz | "tbz" => some .tbz
   | "adr" => some .adr | "adrp" => some .adrp | "ldr" => some .ldr | _ => none
@@ -49,12 +50,15 @@ def parseOp : List String → Option Op
   | ["relocate", b] => do some (.relocate (← bv64? b))
   | ["jmpabs", k, o, t] => do some (.jmpAbs (← parseJ k) (← parseOpt o) (← bv64? t))
   | ["a64abs", k, t] => do some (.a64Abs (← parseA k) (← bv64? t))
+  | ["memabs", k, a, t] => do
+    let at_ ← (match a with | "d" => some AddrT.dflt | "a" => some AddrT.abs | "r" => some AddrT.rel | _ => none)
+    some (.memAbs (← parseM k) at_ (← bv64? t))
   | _ => none
 
 def parseErr (s : String) : Option Err :=
   [Err.ok, .invalidArgument, .invalidState, .tooLarge, .invalidLabel, .labelAlreadyBound, .invalidSection,
    .invalidRelocEntry, .relocOffsetOutOfRange, .invalidInstruction, .invalidAddress, .invalidDisplacement,
-   .invalidOperandSize, .expressionLabelNotBound].find? (fun e => e.name == s)
+   .invalidOperandSize, .expressionLabelNotBound, .invalidAddress64Bit].find? (fun e => e.name == s)
 
 def dumpLine (s : State) : String :=
   let secs := s.secs.map fun sec =>
